@@ -75,21 +75,25 @@ class Lifetime:
                     holders[u] = holders.get(u, 0) + 1
         # a Stop while a running flow still holds the action is only legitimate when a
         # when/await-group scope containing the action was closed in this step
-        scoped_before = set()
+        # per flow: actions inside one of its open scopes before / after the step
+        scoped_before, scoped_after = {}, {}
         for fs in prev.state.flow_states.values():
             for _fl, ac in fs.scopes.values():
-                scoped_before.update(ac)
-        scoped_after = set()
+                scoped_before.setdefault(fs.uid, set()).update(ac)
         for fs in st.flow_states.values():
-            if listening(fs):
-                for _fl, ac in fs.scopes.values():
-                    scoped_after.update(ac)
+            for _fl, ac in fs.scopes.values():
+                scoped_after.setdefault(fs.uid, set()).update(ac)
         prev_acts = dict(prev.aux.get("acts", ()))
         for u, (s, k, f, n) in acts.items():
             if k == 1 and prev_acts.get(u, (0, 0, 0, 0))[1] == 0 and u in prev_acts:
-                if holders.get(u, 0) > 0 and not (u in scoped_before and u not in scoped_after):
+                # flows that still *use* the action: running flows holding it, except those whose
+                # when / await-group scope around it was closed in this very step
+                users = [fs.flow_id for fs in st.flow_states.values()
+                         if listening(fs) and not (fs.flow_id == "main" and fs.status == FlowStatus.WAITING) and u in fs.action_uids
+                         and not (u in scoped_before.get(fs.uid, ()) and u not in scoped_after.get(fs.uid, ()))]
+                if users:
                     raise Violation("shared-action-stopped-while-still-held",
-                                    f"Stop sent for action {n} although a running flow still holds it", {"action": n})
+                                    f"Stop sent for action {n} although running flow(s) {users} still hold it", {"action": n})
         for u, (s, k, f, n) in acts.items():
             if s and not f and k == 0 and holders.get(u, 0) == 0:
                 raise Violation("unfinished-action-not-stopped",
@@ -269,6 +273,35 @@ def t4_programs(tier):
                {"t": "T4", "form": f, "wrapped": wrap})
 
 
+def t5_programs(tier):
+    """identical action shared by two flows, one of them holding it inside a when / await-group scope"""
+    scoped = [
+        ["match E1()", "when ActSAction()", "  send M1()", "or when E2()", "  send M2()", "match E4()"],
+        ["match E1()", "await ActSAction() or c", "send M1()", "match E4()"],
+        ["match E1()", "start ActSAction() as $a", "when $a.Finished()", "  send M1()", "or when E2()", "  send M2()", "match E4()"],
+    ]
+    plain = [["match E1()", "start ActSAction()", "match E3()"], ["match E1()", "await ActSAction()", "match E3()"]]
+    for a, b, order in itertools.product(scoped, plain, (0, 1)):
+        c = "flow c\n" + ind(["match E2()"])
+        s1 = "flow s1\n" + ind(a)
+        s2 = "flow s2\n" + ind(b)
+        names = ["s1", "s2"] if order == 0 else ["s2", "s1"]
+        main = "flow main\n" + ind([f"start {n}" for n in names] + ["match Never()"])
+        yield (c + "\n" + s1 + "\n" + s2 + "\n" + main, {}, {}, ["E1", "E2", "E3", "E4"], [("StopFlow", {"flow_id": "s2"})],
+               {"t": "T5", "scoped": a, "plain": b, "order": order})
+
+
+def t6_programs(tier):
+    """the same flow activated twice by one activator instance (and by two)"""
+    for gb, twice_in, ends in itertools.product([["match E2()", "start ActGAction()", "match E3()"], ["match E2()"]], ("a1", "both"), ("finish", "abort")):
+        g = "flow g\n" + ind(gb)
+        a1 = "flow a1\n" + ind(["activate g", "activate g", "match E1()"] + (["abort"] if ends == "abort" else []))
+        a2 = "flow a2\n" + ind(["activate g"] + (["activate g"] if twice_in == "both" else []) + ["match E4()"])
+        main = "flow main\n" + ind(["start a1", "start a2", "match Never()"])
+        yield (g + "\n" + a1 + "\n" + a2 + "\n" + main, {"g": ["a1", "a2"]}, {}, ["E1", "E2", "E3", "E4"], [("StopFlow", {"flow_id": "a2"})],
+               {"t": "T6", "g": gb, "twice_in": twice_in, "ends": ends})
+
+
 def explore(task):
     src, activators, once, evnames, internals, info, depth = task[:7]
     with_started = task[7] if len(task) > 7 else False
@@ -294,7 +327,7 @@ def explore(task):
 def tasks(tier):
     out = []
     d = {"quick": (4, 5, 5, 4), "thorough": (6, 7, 7, 6)}[tier]
-    for gen, depth in ((t1_programs, d[0]), (t2_programs, d[1]), (t3_programs, d[2]), (t4_programs, d[3])):
+    for gen, depth in ((t1_programs, d[0]), (t2_programs, d[1]), (t3_programs, d[2]), (t4_programs, d[3]), (t5_programs, d[1]), (t6_programs, d[2])):
         for src, act, once, evs, ints, info in gen(tier):
             out.append((src, act, once, evs, ints, info, depth))
     # the same scope / shared-action programs with action Started events in the alphabet
